@@ -33,7 +33,7 @@ try:
     for cand in ("demo.c", "demo.sh"):
         if os.path.exists(os.path.join(src, cand)):
             demo = cand
-    inc = f"-I{wt}/include -I{wt}/_b/generated/include -I{wt}/source/external/libcbor"
+    inc = f"-I{wt} -I{wt}/include -I{wt}/_b/generated/include -I{wt}/source/external/libcbor"
     def run_demo(tag):
         if demo == "demo.c":
             txt = open(os.path.join(src, "demo.c")).read()
